@@ -75,7 +75,7 @@ def _case(draw, tier):
             c["head"] = {"cls": "Pair", "args": [["left", ["var", 0]], ["right", ["var", 1]],
                                                  ["tag", draw(st.sampled_from([["attr", ["var", 1], "b"], ["const", 7]]))]],
                          "positional": draw(st.booleans())}
-        c["infer_style"] = draw(st.sampled_from(["infer_entity", "infer_direct"]))
+        c["infer_style"] = draw(st.sampled_from(["infer_entity", "infer_direct", "an_in_rule_mode"]))
         # the rule body binds every variable the head mentions (C11 owns heads over variables no condition binds)
         missing = sorted(set(range(nv)) - A.cond_vars(c["cond"]))
         if missing:
